@@ -142,6 +142,15 @@ func Mutants(p *Program) []Mutant {
 		q2.Decls = append(append([]Decl{}, p.Decls...), p.Decls[i])
 		out = append(out, Mutant{"redeclared-name", i, q2})
 	}
+	// 6b a name redeclared with another kind: a metric named like a decorator
+	for i, d := range p.Defs {
+		q, _ := apply(p, func(interface{}) bool { return false }, nil, -1)
+		q.Decls = append([]Decl{{Kind: "counter", Name: d.Name, T: TInt}}, q.Decls...)
+		out = append(out, Mutant{"redeclared-name-other-kind", i, q})
+		q2, _ := apply(p, func(interface{}) bool { return false }, nil, -1)
+		q2.Decls = append(q2.Decls, Decl{Kind: "gauge", Name: d.Name, T: TInt})
+		out = append(out, Mutant{"redeclared-name-other-kind", i + 100, q2})
+	}
 	// 2 capture groups
 	site("capture-index-too-high", isCap, func(n interface{}) interface{} { return Cap{"9", n.(Cap).T} })
 	site("capture-unknown-name", isCap, func(n interface{}) interface{} { return Cap{"nosuchgroup", n.(Cap).T} })
